@@ -4,6 +4,7 @@ import (
 	"go/ast"
 	"go/types"
 
+	"verif/internal/core"
 	"verif/internal/flow"
 )
 
@@ -90,6 +91,80 @@ func c14Session(e *c14env) {
 			changer[o] = true
 		}
 	})
+	// a change handed as a closure to a helper that runs it (updateTopicsAndStore(func() {..})):
+	// the helper's call of its function parameter is the change site; the functions that hand the
+	// closure over are decided through the helper
+	changesIn := func(f *flow.Func, root ast.Node) int {
+		n := 0
+		ast.Inspect(root, func(x ast.Node) bool {
+			switch t := x.(type) {
+			case *ast.AssignStmt:
+				for _, l := range t.Lhs {
+					if ix, ok := ast.Unparen(l).(*ast.IndexExpr); ok && isTopics(f, ix.X) {
+						n++
+					}
+				}
+			case *ast.IncDecStmt:
+				if ix, ok := ast.Unparen(t.X).(*ast.IndexExpr); ok && isTopics(f, ix.X) {
+					n++
+				}
+			case *ast.CallExpr:
+				if c14isBuiltin(f, t, "delete", "clear") && len(t.Args) >= 1 && isTopics(f, t.Args[0]) {
+					n++
+				}
+			}
+			return true
+		})
+		return n
+	}
+	type deleg struct {
+		fd  *ast.FuncDecl
+		via *types.Func
+	}
+	var delegs []deleg
+	runsParam := map[*types.Func]map[int]bool{} // helper -> indexes of function parameters that receive a changing closure
+	e.decls(func(f *flow.Func, fd *ast.FuncDecl) {
+		for _, call := range calls(fd.Body, false) {
+			fo := c14calleeOf(f, call)
+			if fo == nil || fo.Pkg() != e.pkg.Types || declOf(e.pkg, fo) == nil {
+				continue
+			}
+			for i, a := range call.Args {
+				if lit, ok := ast.Unparen(a).(*ast.FuncLit); ok && changesIn(f, lit.Body) > 0 {
+					if runsParam[fo] == nil {
+						runsParam[fo] = map[int]bool{}
+					}
+					runsParam[fo][i] = true
+					delegs = append(delegs, deleg{fd, fo})
+				}
+			}
+		}
+	})
+	for fo, idxs := range runsParam {
+		hd := declOf(e.pkg, fo)
+		h := funcOf(e.pkg, hd)
+		params := c14params(h)
+		changes := map[ast.Node]bool{}
+		for _, call := range calls(hd.Body, false) {
+			if id, ok := ast.Unparen(call.Fun).(*ast.Ident); ok {
+				for i := range idxs {
+					if i < len(params) && h.Info.Uses[id] == params[i] {
+						changes[call] = true
+					}
+				}
+			}
+		}
+		if len(changes) == 0 {
+			c.Undecide("R-C14-8", declName(e.pkg, hd)+"|subscription record persisted after every change", pos(c, hd.Body), "a closure that changes SessionInfo.Topics is handed to "+fo.Name()+", which does not call it directly: cannot decide when the change happens")
+			continue
+		}
+		subs = append(subs, subj{h, hd, changes})
+		for n := range changes {
+			allChanges[n] = true
+		}
+		changer[fo] = true
+	}
+
 	// dirtyExit analyses g (changing helpers interpreted in place) and returns an exit that is
 	// reached with an unpersisted change
 	dirtyExit := func(g *flow.Func) (*flow.Exit, int, bool) {
@@ -176,6 +251,21 @@ func c14Session(e *c14env) {
 				}
 				return append([]string{"exit of " + badIn.Name + " at " + pos(c, bad.At)}, witness(bad.State)...)
 			}()...)
+	}
+	// the functions that hand a changing closure to such a helper: persisted iff the helper persists
+	for _, d := range delegs {
+		subjects++
+		helperOK := true
+		for _, o := range c.Obligations {
+			if o.Rule == "R-C14-8" && o.Construct == declName(e.pkg, declOf(e.pkg, d.via))+"|subscription record persisted after every change" && o.Verdict != core.Discharged {
+				helperOK = false
+			}
+		}
+		if helperOK {
+			c.Discharge("R-C14-8", declName(e.pkg, d.fd)+"|subscription record persisted after every change", pos(c, d.fd.Body), "the change is handed as a closure to "+d.via.Name()+", which runs it and persists the session on every path afterwards")
+		} else {
+			c.Violate("R-C14-8", declName(e.pkg, d.fd)+"|subscription record persisted after every change", pos(c, d.fd.Body), "the change of SessionInfo.Topics is handed as a closure to "+d.via.Name()+", which can return without persisting the session after running it: the stored copy keeps the old subscription set")
+		}
 	}
 	c.RequireCount("R-C14-8", "functions changing SessionInfo.Topics", subjects, 2)
 }
